@@ -26,6 +26,7 @@ OPC = {"principal": -24, "null": -1, "bool": -2, "nat": -3, "int": -4, "nat8": -
 FIXED = {"nat8": (1, False), "nat16": (2, False), "nat32": (4, False), "nat64": (8, False), "int8": (1, True), "int16": (2, True),
          "int32": (4, True), "int64": (8, True)}
 FAIL = object()
+ANY = object()       # expectation of a damaged message: a value or an error (anything but a panic)
 
 
 def show(t):
@@ -408,6 +409,22 @@ def run(pid, build_replay):
                 bad_msg = msg[:-1]
             if bad_msg != msg:
                 cases.append((f"co {bad_msg.hex()} {','.join(show(e) for e in exps) or '-'}", tys, "ill-formed value bytes", exps, FAIL, {}, {}))
+        # arbitrary damage (C06): one to three bytes changed, dropped or doubled anywhere in the message, header included.
+        # Nothing is known about the result except that there is one: a value or an error, never a panic.
+        if rnd.random() < 0.35:
+            b = bytearray(msg)
+            for _ in range(rnd.choice([1, 1, 2, 3])):
+                if not b:
+                    break
+                j = rnd.randrange(len(b))
+                c = rnd.random()
+                if c < 0.6:
+                    b[j] = rnd.choice([0x00, 0x01, 0x7f, 0x80, 0xff, b[j] ^ (1 << rnd.randrange(8)), rnd.getrandbits(8)])
+                elif c < 0.8:
+                    del b[j]
+                else:
+                    b.insert(j, b[j])
+            cases.append((f"co {bytes(b).hex() or '00'} {','.join(show(e) for e in exps) or '-'}", tys, "arbitrary damage", exps, ANY, {}, {}))
         NAMES.clear()
     # (mutually) recursive types: lists and trees decoded at edited recursive expected types
     for _ in range(600 * (10 if scale > 1 else 1)):
@@ -459,7 +476,10 @@ def run(pid, build_replay):
         nfail += want is FAIL
         why = None
         desc = f"values {vals} of types ({', '.join(show(t) for t in tys)}) at expected types ({', '.join(show(e) for e in exps)})"
-        if want is FAIL:
+        if want is ANY:
+            if o != "err" and not o.startswith("ok "):
+                why = ("a value or an error (the message was damaged at random; decoding must still return)", o[:160])
+        elif want is FAIL:
             if o != "err":
                 why = ("an error (the coercion relation has no result)", o[:160])
         elif not o.startswith("ok "):
@@ -487,7 +507,7 @@ def run(pid, build_replay):
             "samples": [],
             "bounded_standins": [{"functions": ["de.rs as a whole (untyped decoding at expected types): deserialize_with_type, argument sequencing, done(), "
                                                 "record / variant / option / vector coercion, IDLValue visitor; value.rs annotate_type + encoder for the way back"],
-                                  "bound": f"{len(cases)} seeded messages: 600 lists / trees of recursive types at 8 edited recursive expected types (with 0..2 further expected arguments that are missing on the wire and named: aliases of opt / null / reserved / nat / text), about 1600 messages with one value byte made ill-formed (bool byte, opt tag, variant index, first byte of a text) or cut short -- an error is demanded whatever is expected, also in surplus arguments --, both entry points (from_bytes_with_types, from_bytes_with_types_with_config) must agree, the rest of 0..3 non-recursive arguments (types of depth <= 3 over nat, int, fixed-width ints, bool, text, null, "
+                                  "bound": f"{len(cases)} seeded messages: 600 lists / trees of recursive types at 8 edited recursive expected types (with 0..2 further expected arguments that are missing on the wire and named: aliases of opt / null / reserved / nat / text), about 1400 messages damaged at random (one to three bytes changed, dropped or doubled anywhere: a value or an error is demanded, never a panic), about 1600 messages with one value byte made ill-formed (bool byte, opt tag, variant index, first byte of a text) or cut short -- an error is demanded whatever is expected, also in surplus arguments --, both entry points (from_bytes_with_types, from_bytes_with_types_with_config) must agree, the rest of 0..3 non-recursive arguments (types of depth <= 3 over nat, int, fixed-width ints, bool, text, null, "
                                            f"reserved, opt, vec, record, variant), expected types = the argument types after 0..3 random edits; "
                                            f"{nfail} of them have no coercion (an error is demanded)",
                                   "vectors": len(cases), "disagreements": len(failures), "labelled": "bounded, NOT proved",
